@@ -413,6 +413,44 @@ func driveC08(args []string) error {
 		}
 	}
 
+	// ---- a coordinate as the first operand of a repetition: directly after the opcode byte, and as the first number of
+	// the second repetition of a run (a cut number there is still a cut number: the input may not end inside a run)
+	for pi, full := range pats {
+		if len(full) == 2 && pi%16 != 0 || len(full) == 4 && pi%4 != 0 {
+			continue
+		}
+		for cut := len(full); cut >= 0; cut-- {
+			if cut < len(full) && cut > 0 && pi%8 != 0 {
+				continue
+			}
+			b := full[:cut]
+			for which := 0; which < 2; which++ {
+				// magic 00 | StartPath 0,0 | L with one / two repetitions | ... | z
+				src := append(append([]byte{}, magic00...), 0xc0, 0x80, 0x80, byte(which))
+				if which == 1 {
+					src = append(src, 0x82, 0x84) // the first repetition: (1, 2)
+				}
+				src = append(src, b...)
+				if cut == len(full) {
+					src = append(src, 0x86, 0xe1)
+				}
+				var rec Recorder
+				o := guarded(func() error { return decode.Decode(&rec, src) })
+				ev := numEv{Ev: "dec", Kind: "coordinate", Path: []string{"AbsLineTo.x", "AbsLineTo.x(2nd repetition)"}[which], B: bytesJ(b), N: -1}
+				if o.panicv != nil || o.hang {
+					ev.OK = -1
+				} else if o.err == nil && len(rec.Calls) == 4+which && rec.Calls[2+which].Op == "AbsLineTo" {
+					ev.OK = 1
+					ev.V = rec.Calls[2+which].F[0]
+				} else if o.err == nil {
+					ev.OK = -2
+				}
+				emit(ev)
+				counts["dec.lineto"]++
+			}
+		}
+	}
+
 	// ---- re-encoding a decoded real / coordinate --------------------------------
 	for pi, full := range pats {
 		if pi%2 == 1 && len(full) != 4 {
